@@ -28,6 +28,9 @@ SM_THEOREMS = ["C20_sm_classes_exact", "C20_sm_completion", "C20_sm_placeholders
 KNOWN_THEOREMS = ["C20_offered_lexes_refuted", "C20_lexed_offered_refuted",
                   "C20_known_offered_not_lexed_real", "C20_known_lexed_not_offered_real"]
 TRANSLATORS = ["t_tokens", "t_lextables", "t_grammar", "t_ast", "t_completion"]
+# class clause end to end over the models (group symmap, props/C20Pipeline.v): its cone also needs these generated files
+PIPELINE_THEOREMS = ["C20_core_classes", "C20_pipeline_classes", "C20_pipeline_nonvacuous"]
+PIPELINE_TRANSLATORS = ["t_unicode", "t_grammarcert", "t_foldkinds"]
 TRUSTED = [
     "Coq 8.16.1 kernel incl. vm_compute (finite-domain lemmas `forallb ... = true` over the complete generated tables, lifted with forallb_forall)",
     "translators t_completion / t_lextables / t_tokens / t_grammar / t_ast (each cross-checked on every run: real completion lists vs GenCompletion, "
@@ -112,7 +115,7 @@ def model_tok_line(r, tk_index):
 def run(ctx):
     import t_tokens, t_lextables, t_completion, t_ast
     bindir = vlib.build_harness(False, bins=["idedump", "lexdump", "parsedump", "compsession"])
-    fails = vlib.proof_step(ctx, "TG.Props.C20", THEOREMS, ["props/C20.vo"], TRUSTED, translators=TRANSLATORS)
+    fails = vlib.proof_step(ctx, "TG.Props.C20", THEOREMS, ["props/C20.vo"], TRUSTED, translators=TRANSLATORS + PIPELINE_TRANSLATORS)
     fails = G.own_failures(fails, ["props/C20.vo"])
     rsm = vlib.prove("TG.Props.C20SM", SM_THEOREMS, ["props/C20SM.vo"])
     fails += G.own_failures(rsm["failures"], ["props/C20SM.vo"])
@@ -120,6 +123,17 @@ def run(ctx):
     ctx.cov["discharged"] = ctx.cov.get("discharged", 0) + rsm["discharged"]
     ctx.cov["theorems"] = list(ctx.cov.get("theorems", [])) + SM_THEOREMS
     ctx.cov.setdefault("axioms_per_theorem", {}).update(rsm["assumptions"])
+    rp = vlib.prove("TG.Props.C20Pipeline", PIPELINE_THEOREMS, ["props/C20Pipeline.vo"])
+    fails += G.own_failures(rp["failures"], ["props/C20Pipeline.vo"])
+    ctx.cov["obligations"] = ctx.cov.get("obligations", 0) + rp["obligations"]
+    ctx.cov["discharged"] = ctx.cov.get("discharged", 0) + rp["discharged"]
+    ctx.cov["theorems"] = list(ctx.cov.get("theorems", [])) + PIPELINE_THEOREMS
+    ctx.cov.setdefault("axioms_per_theorem", {}).update(rp["assumptions"])
+    ctx.cov["trusted_base"] = list(ctx.cov.get("trusted_base", [])) + [
+        "props/C20Pipeline.v (group symmap; design/notes-indexer-bridge.md): the class clause composed with group scope's indexer model and "
+        "builder bridge's pipeline: offered classes = classes declared in the CoreAst (ClassVisit.declared_classes, last declaration wins); "
+        "trusted there: Indexer.v + IndexerOps.absN = index.rs + symbol_map.rs (checked state equality incl. name_to_class / name_to_def and the "
+        "declared-class specification vs the real op log: checks/C06.py, evidence bridge_to_indexer_model)"]
     rk = vlib.prove("TG.Props.C20Known", KNOWN_THEOREMS, ["props/C20Known.vo"])
     known_fails = G.own_failures(rk["failures"], ["props/C20Known.vo"])
     ctx.cov["known_finding_theorems"] = {"module": "TG.Props.C20Known", "theorems": KNOWN_THEOREMS,
